@@ -34,3 +34,42 @@ Theorem C04_url_sink_dispatch : forall elem attr : bytes,
   url_sink elem attr = true.
 Proof. exact url_sink_dispatch. Qed.
 Print Assumptions C04_url_sink_dispatch.
+
+(* ---------- the URL sink in the generated code: the WHOLE generator model (model/Gen.v) ---------- *)
+From V Require Import model.Ast model.Gen proofs.GenAddsProof proofs.GenFreshProof proofs.GenSinkProof.
+Import ListNotations.
+Local Open Scope list_scope.
+
+(* An expression attribute name={ e } of element elem is written with the URL sink group - the value is declared as
+   templ.SafeURL (so a plain string does not compile and templ.URL / templ.SafeURL must produce it) and written through
+   templ.EscapeString(string(v)) between the literals ` name=` `\"` and `\"` - exactly when url_sink elem name
+   (C04_url_sink_dispatch: href on a, action on form, in every letter case); otherwise the group is one of the other
+   three kinds, none of which declares a templ.SafeURL. *)
+Theorem C04_generated_url_sink : forall (f lvl : nat) (elem n : bytes) (e : expr) (g : Gen.gst),
+  Gen.write_attrs (S f) lvl elem [AExpr n e] g =
+    replay ([OL ([x20] ++ Gen.hesc n ++ bs "="); OL (bs "\""")] ++
+            g_attr (attr_kind elem n) lvl (vname (S (Gen.vid g))) (Gen.fname g) e ++ [OL (bs "\""")])
+           (Gen.set_vid (S (Gen.vid g)) g) /\
+  (attr_kind elem n = KUrl <-> url_sink elem n = true) /\
+  (forall (vn fn : bytes), g_attr KUrl lvl vn fn e =
+     [OI lvl (bs "var " ++ vn ++ bs " templ.SafeURL = "); OE e; OR Gen.nlb;
+      OI lvl (bs "_, templ_7745c5c3_Err = templ_7745c5c3_Buffer.WriteString(templ.EscapeString(string(" ++ vn ++ bs ")))"); OR Gen.nlb] ++ eh lvl).
+Proof. exact (fun f lvl elem n e g => conj (attr_occurrence f lvl elem n e g) (conj (url_kind_iff elem n) (fun vn fn => eq_refl))). Qed.
+Print Assumptions C04_generated_url_sink.
+
+(* in the run on a whole file every expression attribute group is one of these (constructor S_expr of Sunk, inside the
+   operations S_elem of the element whose name is the elem of attr_kind), and no Buffer.WriteString statement occurs
+   outside a sink group *)
+Theorem C04_gen_sinks_escaped : forall (fn : bytes) (f : file),
+  exists l : list op,
+    same (gen_state fn f) (replay l (g_init fn)) /\
+    Sunk None 0 (Gen.vid (gen_state fn f)) l /\
+    (forall (lvl : nat) (s : bytes), In (OI lvl s) l -> is_writer s = true ->
+       exists pre grp post : list op, l = pre ++ grp ++ post /\ sink grp /\ In (OI lvl s) grp).
+Proof. exact gen_sinks_escaped. Qed.
+Print Assumptions C04_gen_sinks_escaped.
+
+Example C04_ex_kinds :
+  attr_kind (bs "a") (bs "href") = KUrl /\ attr_kind (bs "A") (bs "HREF") = KUrl /\ attr_kind (bs "form") (bs "action") = KUrl /\
+  attr_kind (bs "div") (bs "href") = KDefault /\ attr_kind (bs "button") (bs "onclick") = KOn /\ attr_kind (bs "p") (bs "style") = KStyle.
+Proof. exact ex_kinds. Qed.
